@@ -46,3 +46,24 @@ Example pipe_is_call :
                         ETuple [EPipe (EInt 10) (EId 1%N) [EInt 3]; ECall (EId 1%N) [EInt 10; EInt 3]]]))
   = RVal (VTuple [VInt 7; VInt 7]).
 Proof. vm_compute. reflexivity. Qed.
+
+(* generators: values in order, resuming where it paused (local state kept across yields),
+   ending when the body returns; a `for` with `break` leaves the rest in the generator *)
+Example generator_yields_in_order :
+  (* g = |n| acc = 1; while acc < n + 3: yield acc; acc *= 2      g(4).to_tuple() *)
+  fst (run 200 (EBlock [EAssign 0%N None
+                          (EGenFn [(TId 1%N None, None)] None
+                             (EBlock [EAssign 2%N None (EInt 1);
+                                      EWhile (ECmp (EId 2%N) [(CLt, EBin OAdd (EId 1%N) (EInt 3))])
+                                             (EBlock [EYield (EId 2%N); EOpAssign OMul 2%N (EInt 2)])]));
+                        EToTuple (ECall (EId 0%N) [EInt 4])]))
+  = RVal (VTuple [VInt 1; VInt 2; VInt 4]).
+Proof. vm_compute. reflexivity. Qed.
+
+Example generator_break_leaves_the_rest :
+  fst (run 200 (EBlock [EAssign 0%N None (EGenFn [] None (EBlock [EYield (EInt 1); EYield (EInt 2); EYield (EInt 3)]));
+                        EAssign 1%N None (ECall (EId 0%N) []);
+                        EFor [TId 2%N None] (EId 1%N) (EBreak None);
+                        EToTuple (EId 1%N)]))
+  = RVal (VTuple [VInt 2; VInt 3]).
+Proof. vm_compute. reflexivity. Qed.
